@@ -10,16 +10,23 @@ def go(test, q, t, **kw):
     return d
 
 
+def fz(test, seconds, **kw):
+    """Native, coverage-guided fuzzing target (thorough tier only; not a function of VERIF_SEED)."""
+    d = {"kind": "fuzz", "test": test, "tiers": ["thorough"], "fuzztime": {"thorough": seconds}}
+    d.update(kw)
+    return d
+
+
 CHECKS = {
-    "C01": {"level": E, "units": [go("TestC01", 8000, 100000)]},
-    "C17": {"level": E, "units": [go("TestC17Single", 1000000, 16, netns=False), go("TestC17Pairs", 1000000, 8000000, netns=False)]},
+    "C01": {"level": E, "units": [go("TestC01", 8000, 100000), fz("FuzzC01", 420, netns=True)]},
+    "C17": {"level": E, "units": [go("TestC17Single", 1000000, 16, netns=False), go("TestC17Pairs", 1000000, 8000000, netns=False), fz("FuzzC17", 90)]},
     "C06": {"level": E, "units": [go("TestC06Exhaustive", 16, 16, netns=False), go("TestC06Seq", 160000, 3000000, netns=False),
                                   go("TestC06Conc", 3000, 60000, race=True, netns=False, confirm=False)], "replay_race": False},
-    "C18": {"level": E, "units": [go("TestC18Samples", 1, 1, netns=False, shards={"quick": 1, "thorough": 1}), go("TestC18", 400000, 6000000, netns=False)]},
+    "C18": {"level": E, "units": [go("TestC18Samples", 1, 1, netns=False, shards={"quick": 1, "thorough": 1}), go("TestC18", 400000, 6000000, netns=False), fz("FuzzC18", 240)]},
     "C19": {"level": E, "units": [go("TestC19", 48000, 3000000)]},
     "C03": {"level": E, "agent_binary": True, "units": [go("TestC03", 2000, 60000), go("TestC03Restart", 192, 6000)]},
     "C09": {"level": E, "units": [go("TestC09", 4000, 120000), go("TestC09UP4", 1600, 40000)]},
-    "C08": {"level": E, "units": [go("TestC08Parser", 200000, 8000000, netns=False), go("TestC08PDR", 4000, 100000), go("TestC08PFD", 1500, 40000)]},
+    "C08": {"level": E, "units": [go("TestC08Parser", 200000, 8000000, netns=False), go("TestC08PDR", 4000, 100000), go("TestC08PFD", 1500, 40000), fz("FuzzC08", 240)]},
     "C14": {"level": E, "units": [go("TestC14", 3200, 60000)]},
     "C13": {"level": E, "units": [go("TestC13", 1200, 20000), go("TestC13Unit", 640, 6000, netns=False), go("TestC13Flood", 16, 160, max_per_proc=4)]},
     "C07": {"level": E, "hazards_of": ["C03"], "units": [go("TestC07Gen", 50000, 2000000, netns=False), go("TestC07Conc", 600, 20000, race=True, netns=False, confirm=False), go("TestC07Wire", 2000, 30000)]},
